@@ -2,6 +2,7 @@ package mptsim
 
 import (
 	"fmt"
+	"os"
 	"strings"
 
 	"verif/harness/sim"
@@ -478,7 +479,15 @@ func GenRounds(prop string, r *sim.Rand, tier string) sim.Script {
 		nPool = 200 + r.Intn(300)
 		profile = []string{"fixed", "mixed"}[r.Intn(2)]
 	}
-	hugeRound := r.Chance(1, 3000) // ... or many thousands (a save of several batches, if the store splits it)
+	// one save of more than 2^16 nodes: minutes of CPU per run, thorough tier only
+	giant := (tier == "thorough" && prop == "C04" && r.Chance(1, 30000)) || os.Getenv("VERIF_FORCE_PROFILE") == "giant"
+	if giant {
+		nRounds = 1 + r.Intn(2)
+		bigRound = nRounds - 1
+		nPool = 52000 + r.Intn(12000)
+		profile = "fixed"
+	}
+	hugeRound := !giant && r.Chance(1, 3000) // ... or many thousands (a save of several batches, if the store splits it)
 	if hugeRound {
 		bigRound = r.Intn(nRounds)
 		nPool = 3200 + r.Intn(1800)
